@@ -125,7 +125,6 @@ pub fn default_guards() -> Vec<String> {
         "arithmetic_update_on_indexed_table",    // D24
         "statement_in_session_after_vacuum_aborted_it", // V1
         "create_index_inside_session",           // X1
-        "mixed_type_index_out_of_table_order",   // X3
         "alter_drop_column",                     // D17, D17b
         "alter_add_column",                      // D16
         "more_than_32_inserts_per_table",        // D9, D15b
